@@ -566,3 +566,60 @@ def f8(repo: Repo) -> RuleResult:
         if open_when_empty and not nonempty:
             res.bad(Finding("F8", pm.rel, c.node.lineno, c.name, open_when_empty[-1], f"`{open_when_empty[-1]}` opens a suite whose body is the list of {wrapped.name}; for a definition without members the body is empty and the generated module does not parse", witness="enum E : uint3 {}  ->  `class E(IntEnum):` followed by nothing: IndentationError on import", tag=f"{c.name}:empty-suite"))
     return res
+
+
+# --------------------------------------------------------------------------
+# F9 generated Python: names used by the templates are imported on every path
+# --------------------------------------------------------------------------
+
+PY_IMPORTABLE = {
+    "typing": {"ClassVar", "Dict", "List", "Union", "Optional", "Tuple", "Any", "Set"},
+    "enum": {"IntEnum", "unique", "Enum"},
+    "dataclasses": {"dataclass", "field"},
+}
+
+
+@rule("F9", "generated Python: every library name a template uses is imported by the general import block on every path")
+def f9(repo: Repo) -> RuleResult:
+    from .emit import block_flow, pushed
+    from .normal import V
+
+    res = RuleResult("F9", floor=1)
+    m = get_model(repo)
+    universe = {n for s_ in PY_IMPORTABLE.values() for n in s_}
+    used: Dict[str, str] = {}
+    for relsfx in ("impls/py/renderer.py", "impls/py/formatter.py"):
+        mod = m.mod(relsfx)
+        for n in ast.walk(mod.tree):
+            if isinstance(n, ast.Constant) and isinstance(n.value, str):
+                for mm in re.finditer(r"(?<![\w.])(@?)([A-Za-z_]\w*)(\s*[\[(]|\b)", n.value):
+                    name = mm.group(2)
+                    if name in universe and (mm.group(1) == "@" or mm.group(3).strip() in ("[", "(") or re.search(r"\(" + name + r"\)", n.value)):
+                        used.setdefault(name, f"{mod.rel}:{n.lineno}")
+    try:
+        c = m.cls("BlockGeneralImports", "impls/py/renderer.py")
+        rfn = m.lookup(c, "render")
+        if rfn is None:
+            raise Inconclusive("BlockGeneralImports.render not found")
+        flow = block_flow(repo, "BlockGeneralImports", "impls/py/renderer.py", "PyFormatter", "impls/py/formatter.py", {})
+        paths = [p_ for p_ in flow.run(rfn.node, {"self": V("self")}) if p_.done != "raise"]
+    except Inconclusive as e:
+        res.unsure(f"F9: {e}")
+        return res
+    res.inst(used=sorted(used), paths=len(paths))
+    if len(used) < 4:
+        res.unsure(f"F9: only {sorted(used)} found in the Python templates (ClassVar, Dict, List, Union, IntEnum, dataclass, field confirmed by hand)")
+    for p_ in paths:
+        imported = set()
+        for _, t in pushed(p_):
+            mm = re.match(r"\s*from\s+([\w.]+)\s+import\s+(.+)$", t)
+            if mm:
+                imported |= {x.strip().split(" as ")[0] for x in mm.group(2).split(",")}
+            mm = re.match(r"\s*import\s+(.+)$", t)
+            if mm:
+                imported |= {x.strip().split(" as ")[0] for x in mm.group(1).split(",")}
+        missing = sorted(n for n in used if n not in imported)
+        if missing:
+            res.bad(Finding("F9", m.mod("impls/py/renderer.py").rel, c.node.lineno, "BlockGeneralImports.render", f"path under {p_.guard_text()}: imports {sorted(imported & universe)}", f"the generated module uses {missing} (e.g. {used[missing[0]]}) but the import block does not import {'it' if len(missing) == 1 else 'them'} on the path under {p_.guard_text() or ['<always>']}: templates elsewhere emit these names under their own conditions", witness="a file that declares no enum itself but uses an imported enum as a field type: NameError: name 'Union' is not defined on import", tag=f"py-imports:{','.join(missing)}"))
+            break
+    return res
